@@ -224,7 +224,13 @@ func configCanon(in configIn) configAConfig {
 // distinct strings, but n = 4k+1 .. 4k+4 differ only in letter case, surrounding blanks or
 // unusual trailing characters ("c0", "C0", " c0 ", "c0.ä/#"), so that a component that
 // normalises ids (trims, lower-cases, splits) disagrees with the validator's exact comparison.
+// Ids n >= 1000 are kind-neutral: the text "x<n-1000>" whatever the kind, so sensor 1001,
+// curve 1001 and fan 1001 carry the SAME string (legal: the validator keeps the kinds apart)
+// and a reference can name an object of the wrong kind.
 func configIdText(prefix string, n int) string {
+	if n >= 1000 {
+		return "x" + strconv.Itoa(n-1000)
+	}
 	base := prefix + strconv.Itoa((n-1)/4)
 	switch (n - 1) % 4 {
 	case 0:
@@ -241,6 +247,12 @@ func configIdText(prefix string, n int) string {
 func configParseId(prefix, s string) int {
 	if s == "" {
 		return 0
+	}
+	if strings.HasPrefix(s, "x") {
+		if k, err := strconv.Atoi(s[1:]); err == nil && k >= 0 && strconv.Itoa(k) == s[1:] {
+			return 1000 + k
+		}
+		return -1
 	}
 	variant := 0
 	t := s
@@ -417,7 +429,7 @@ func configIdStr(prefix string, n int) string {
 		return `""`
 	}
 	t := configIdText(prefix, n)
-	if (n-1)%4 == 0 {
+	if n >= 1000 || (n-1)%4 == 0 {
 		return t
 	}
 	return strconv.Quote(t)
@@ -1037,6 +1049,11 @@ func configRunAccepted(ctx *Ctx, path string, nc, nf int, obs *configObs) {
 				if started >= 0 {
 					res[started] = code
 					from = started + 1
+					if code == 2 {
+						// an endless recursion / stall: the case is a failing input already; the remaining
+						// targets are not run (each could cost another watchdog period)
+						from = nc + nf
+					}
 				} else {
 					// died outside any target (instantiation / controller construction)
 					obs.WorkerDied = true
@@ -1589,12 +1606,12 @@ func configTagsFor(in configIn, obs configObs, gen string) []string {
 
 func init() {
 	drivers["config"] = func(ctx *Ctx) {
-		// every endless recursion costs several child processes; after 8 such cases the
+		// every endless recursion costs several child processes; after 5 such cases the
 		// verdict is settled (each is a failing input) and generation stops
 		hangs := 0
 		ncases := 0
 		emit := func(in configIn, gen string, extra ...string) {
-			if hangs >= 8 {
+			if hangs >= 5 {
 				return
 			}
 			// every 40th generated case and every corpus case also goes through the real CLI entry
@@ -1748,6 +1765,44 @@ func init() {
 				in.Fans = append(in.Fans, configGenFan(rng, fi+1, c))
 			}
 			emit(in, "sensor-use", "sensor-use="+itoa(use&3)+itoa((use>>2)&3)+itoa((use>>4)&3))
+		}
+		// (b4) cross-kind references: an id text shared between kinds (legal), and references at all
+		// four sites (linear.sensor, pid.sensor, function member, fan.curve) that name an existing
+		// object of the WRONG kind, of the right kind, or of both
+		xreps := 2
+		if !ctx.Quick() {
+			xreps = 10
+		}
+		for rep := 0; rep < xreps; rep++ {
+			for site := 0; site < 4; site++ {
+				for have := 0; have < 4; have++ { // bit 0: a sensor carries the shared id, bit 1: a curve does
+					in := configGenValid(rng, rng.Range(1, 3), rng.Range(1, 2))
+					x := 1000 + rng.Intn(3)
+					if have&1 != 0 {
+						in.Sensors = append(in.Sensors, configGenSensor(rng, x))
+					}
+					if have&2 != 0 {
+						in.Curves = append(in.Curves, configGenLeaf(rng, x, []int{in.Sensors[0].Id}))
+					}
+					if rng.Chance(1, 3) {
+						in.Fans = append(in.Fans, configGenFan(rng, x, in.Curves[0].Id)) // a fan may share the text too
+					}
+					switch site {
+					case 0:
+						in.Curves = append(in.Curves, configInCurve{Id: 201, Linear: &configInLinear{Sensor: x, Min: 30, Max: 70}})
+					case 1:
+						in.Curves = append(in.Curves, configInCurve{Id: 201, Pid: &configInPidC{Sensor: x, Set: "50", K: configPidTexts[rng.Intn(2)]}})
+					case 2:
+						in.Curves = append(in.Curves, configInCurve{Id: 201, Func: &configInFunc{Type: configFnTypes[rng.Intn(6)], Curves: []int{in.Curves[0].Id, x}}})
+					default:
+						in.Fans = append(in.Fans, configGenFan(rng, 201, x))
+					}
+					if site != 3 {
+						in.Fans = append(in.Fans, configGenFan(rng, 202, 201))
+					}
+					emit(in, "cross-kind", "xref="+[]string{"linear.sensor", "pid.sensor", "member", "fan.curve"}[site]+"/"+[]string{"none", "sensor", "curve", "both"}[have])
+				}
+			}
 		}
 		// (c) curve graphs with up to 8 nodes: random DAGs, a cycle of every length 1..8 embedded, dangling references
 		nGraph := ctx.Param("graphs", 30)
